@@ -10,8 +10,17 @@ Small-scope exhaustive input enumeration in three families, all against the real
    nested option, list, set, maps with pair and union keys, big_map literal and pointer, timestamp, bytes, address, lambda,
    comb pair, enum), with and without field names, every combination of 1-3 values per leaf; plus option / list / map
    wrappers around them.
+ L also has the shard LO: a PRESENT optional around every palette value (so around every empty / false / zero payload), bare and
+   as a pair field, union branch, list element and map value.
  E (entrypoint helper): every `or` tree with n leaves, every duplicate-free placement of {none, %a, %b} on all nodes, every
-   listed entrypoint x argument through ContractEntrypoint.decode / encode and ParameterSection.to/from_python_object.
+   listed entrypoint x argument through ContractEntrypoint.decode / encode and ParameterSection.to/from_python_object; leaf
+   types in two rotations (int first / option first; the option leaf is absent, present, present with an empty payload).
+ H (process history, on every shard of S, L and E): a shard is a sequence of conversions in one process.  Every item (a type
+   with its values / a parameter type with its calls) is converted (1) in shard order, (2) in the OPPOSITE order in a forked copy
+   of the process taken before the shard (same earlier history), (3) once more after the whole shard (A-B-A).  The three
+   objects of every input must be the same text: the Python object is a function of the type and the value, not of what the
+   process converted before (names are "stable for a given type").  Shards hold all annotation placements of one shape, so
+   types that differ only in %field or only in :type names sit in the same sequence.
 
 Oracles (the statement; no hand-written expectation):
    T.from_python_object(v.to_python_object()) == v                                   (equality = readable Micheline)
@@ -20,6 +29,7 @@ Oracles (the statement; no hand-written expectation):
    ContractEntrypoint: decode(a, e) = obj; encoding obj again (through the root entrypoint, and through the entrypoint that
    obj names when that is a listed one) denotes the same full parameter; decoding that gives obj again;
    ParameterSection.from_python_object(p.to_python_object()) == p.
+   H: object(type, value) identical in shard order, in reverse order (forked copy), and again after the shard.
 """
 from __future__ import annotations
 
@@ -34,20 +44,26 @@ ID = 'C12'
 LEVEL = 'exploration'
 RULE = ('S: all tree shapes x {pair,or} per inner node x annotation placements x leaf modes x all values; L: all 2-(3-)leaf '
         'pairs/unions over a 21-type leaf palette x value combinations (+ wrappers); E: all or-trees x annotation placements x '
-        '(entrypoint, argument).  non-trivial = distinct (type, value) whose Python object uses an inferred name (prim_N), '
+        '(entrypoint, argument); LO: present optional around every palette value in 6 containers; H: every shard also converted in the '
+        'opposite order in a forked copy of the process and once more afterwards, objects compared input by input.  '
+        'non-trivial = distinct (type, value) whose Python object uses an inferred name (prim_N), '
         'nests a composite inside a composite, or goes through a contract-level helper with an unannotated union leaf')
 BOUND = {
     'quick': 'S: n<=3 leaves full alphabet on all nodes (int leaves; unit/mixed leaves with {none,%a,%collider}), n=4 alphabet {none,%a,%int_1} on non-root nodes; '
-             'L: 2 leaves x 21 leaf types x 2 naming schemes x <=9 value combinations; E: n<=3 leaves, names {none,%a,%b}',
+             'L: 2 leaves x 21 leaf types x 4 naming schemes (none, %x %y, %x %x, :x :y) x <=16 value combinations, LO: option around each of the 21 '
+             'palette types x every value x 6 containers; E: n<=3 leaves, names {none,%a,%b}, 2 leaf rotations; H: every shard in both orders + again',
     'thorough': 'S: n<=3 full alphabet x 3 leaf modes, n=4 full alphabet (non-root nodes), n=5 alphabet {none,%a,%int_1}; L: 3 leaves over the palette, wrappers '
-                'option/list/map/set; E: n<=4 leaves',
+                'option/list/map/set, LO as quick; E: n<=4 leaves, 2 leaf rotations; H: every shard in both orders + again',
 }
 ASSUMPTIONS = ['equality of values = equality of their readable Micheline rendering (lazy_diff=None, as ContractData does)',
                'Python objects are compared with ==',
-               'entrypoint listing of the E family comes from mc/ref/entrypoints.py (validated by its selftest)']
+               'entrypoint listing of the E family comes from mc/ref/entrypoints.py (validated by its selftest)',
+               'H compares repr() of the Python objects; the forked copy shares the history of the lane up to the shard, so only '
+               'interference between conversions of the same shard (all annotation placements of one shape / one palette row) is judged']
 LEVEL_TEXT = ('exhaustive over every pair/union shape, kind assignment and annotation placement up to the leaf bound, and over '
               'every pair of leaf types from the palette; each value is converted to its Python object and back, and through '
-              'the contract-level helpers; nothing is sampled')
+              'the contract-level helpers; every shard is additionally converted in the opposite order in a copy of the process and '
+              'once more afterwards, so an object that depends on earlier conversions in the process is seen; nothing is sampled')
 
 TZ1 = 'tz1VSUr8wwNhLAzempoch5d6hLRiTh8Cjcjb'
 
@@ -70,6 +86,9 @@ D_PS_INFERRED = ('ParameterSection.from_python_object rejects the inferred name 
                  'that to_python_object produced')
 D_PS_ERR = 'ParameterSection.from_python_object rejects the object produced by to_python_object'
 D_PS_DIFF = 'parameter -> Python object -> parameter changes the value'
+D_HISTORY = ('the Python object of a value depends on which other types were converted earlier in the same process '
+             '(same history, opposite order of the shard)')
+D_DRIFT = 'the Python object of a value changes when its type is built and the value converted again later in the same process'
 
 
 def err(e):
@@ -232,7 +251,7 @@ PAL = [
     (ty('int'), [I(0), I(-1)]),
     (ty('string'), [Str(''), Str('a')]),
     (ty('unit'), [UNIT]),
-    (ty('bool'), [{'prim': 'True'}]),
+    (ty('bool'), [{'prim': 'True'}, {'prim': 'False'}]),
     (ty('option', ty('int')), [NONE, Some(I(0))]),
     (ty('option', ty('option', ty('int'))), [NONE, Some(NONE), Some(Some(I(1)))]),
     (ty('option', ty('unit')), [NONE, Some(UNIT)]),
@@ -241,7 +260,7 @@ PAL = [
     (ty('map', ty('pair', ty('int'), ty('string')), ty('int')),
      [[], [Elt(Pair(I(1), Str('a')), I(1)), Elt(Pair(I(2), Str('b')), I(2))]]),
     (ty('map', ty('or', ty('int', annots=['%l']), ty('string')), ty('option', ty('int'))),
-     [[Elt(Left(I(1)), NONE), Elt(Right(Str('a')), Some(I(1)))]]),
+     [[Elt(Left(I(1)), NONE), Elt(Right(Str('a')), Some(I(1)))], []]),
     (ty('big_map', ty('string'), ty('int')), [[Elt(Str('a'), I(1))], I(7), I(0), []]),   # ids 7 and 0 (falsy), literal, empty literal
     (ty('big_map', ty('pair', ty('nat'), ty('bytes')), ty('pair', ty('int', annots=['%v']), ty('string'))),
      [[Elt(Pair(I(0), {'bytes': '00'}), Pair(I(1), Str('x')))]]),
@@ -278,7 +297,7 @@ def l_compose(kind, leaves, names):
 
 
 def l_shards(tier):
-    out = [('L1',)] + [('L2', i) for i in range(len(PAL))]
+    out = [('L1',), ('LO',)] + [('L2', i) for i in range(len(PAL))]
     if tier == 'thorough':
         out += [('L3', i, j) for i in range(len(PAL)) for j in range(len(PAL))]
         out += [('LW', i) for i in range(len(PAL))]
@@ -294,8 +313,21 @@ def l_types(spec):
         i = spec[1]
         for j in range(len(PAL)):
             for kind in ('pair', 'or'):
-                for names in (None, ['%x', '%y'], ['%x', '%x']):
+                for names in (None, ['%x', '%y'], ['%x', '%x'], [':x', ':y']):
                     yield l_compose([kind], [i, j], names)
+    elif spec[0] == 'LO':
+        # a PRESENT optional whose payload is every palette value (empty string / bytes / list / set / map, False, 0, Unit ...),
+        # bare and inside each kind of container that delegates to the option
+        for t, vals in PAL:
+            ovals = [NONE] + [Some(v) for v in vals]
+            yield ty('option', t), ovals
+            yield ty('pair', ty('option', t, annots=['%o']), ty('int', annots=['%n'])), [Pair(v, I(0)) for v in ovals]
+            yield ty('pair', ty('option', t), ty('int')), [Pair(v, I(0)) for v in ovals]
+            yield ty('or', ty('option', t, annots=['%o']), ty('unit', annots=['%u'])), [Left(v) for v in ovals] + [Right(UNIT)]
+            if not _has_big_map(t):
+                yield ty('list', ty('option', t)), [ovals, ovals[1:]]
+                yield ty('map', ty('string'), ty('option', t)), [[Elt(Str(''), v)] for v in ovals] + \
+                    [[Elt(Str(''), ovals[-1]), Elt(Str('k'), ovals[1])]]
     elif spec[0] == 'L3':
         i, j = spec[1], spec[2]
         for k in range(len(PAL)):
@@ -396,7 +428,7 @@ def check_type(T, t):
     return []
 
 
-def check_value(T, t, value, cd=None):
+def check_value(T, t, value, cd=None, second_build=True):
     """One value through object conversion, ContractData helpers and the stability checks.
     Returns (violations, outcome label, python object or None)."""
     out = []
@@ -419,13 +451,15 @@ def check_value(T, t, value, cd=None):
     except Exception as e:
         out.append((classify(T, t, value, D_BACK_ERR), f'type={t} value={value} object={o!r} {err(e)}'))
         label += ' back:raises'
-    # stability: a second build of the same type expression names the fields identically
-    try:
-        o2 = M(json.loads(json.dumps(t))).from_micheline_value(value).to_python_object(lazy_diff=None)
-        if o2 != o:
-            out.append((D_UNSTABLE, f'type={t} value={value} first={o!r} second={o2!r}'))
-    except Exception as e:
-        out.append((D_UNSTABLE, f'type={t} value={value} second build: {err(e)}'))
+    # stability: a second build of the same type expression names the fields identically (inside a shard this is the job of
+    # judge_drift, which builds the type again after the whole shard)
+    if second_build:
+        try:
+            o2 = M(json.loads(json.dumps(t))).from_micheline_value(value).to_python_object(lazy_diff=None)
+            if o2 != o:
+                out.append((D_UNSTABLE, f'type={t} value={value} first={o!r} second={o2!r}'))
+        except Exception as e:
+            out.append((D_UNSTABLE, f'type={t} value={value} second build: {err(e)}'))
     if cd is not None:
         for mode in ('readable', 'optimized'):
             try:
@@ -463,7 +497,8 @@ def run_bare_type(r, fam, t, vals):
         r.ev()
         r.out('type rejected')
         r.viol('MichelsonType.match rejects a well-formed type', case, f'type={t} {err(e)}')
-        return case
+        return case, None
+    texts = []
     r.ev()
     for d, detail in check_type(T, t):
         r.viol(d, case, detail)
@@ -479,10 +514,11 @@ def run_bare_type(r, fam, t, vals):
     for value in vals:
         case = {'fam': fam, 'type': t, 'value': value}
         r.ev()
-        vs, label, o = check_value(T, t, value, cd)
+        vs, label, o = check_value(T, t, value, cd, second_build=False)
         r.out(label)
         for d, detail in vs:
             r.viol(d, case, detail)
+        texts.append(repr(o) if ' -> ' in label else None)
         if o is not None:
             inferred, nested, _ = obj_profile(o)
             if inferred or nested:
@@ -498,7 +534,7 @@ def run_bare_type(r, fam, t, vals):
     for name, branches in names_by_branch.items():
         if len(branches) > 1 and not shared_names(T):
             r.viol(D_UNSTABLE, {'fam': fam, 'type': t}, f'type={t} name {name!r} used for union branches {sorted(branches)}')
-    return case
+    return case, (None if None in texts else texts)
 
 
 def _or_skeleton(t):
@@ -510,13 +546,13 @@ E_LEAVES = [
     (ty('int'), [I(5)]),
     (ty('pair', ty('int', annots=['%x']), ty('string')), [Pair(I(1), Str('s'))]),
     (ty('unit'), [UNIT]),
-    (ty('option', ty('nat')), [NONE, Some(I(3))]),
+    (ty('option', ty('string')), [NONE, Some(Str('s')), Some(Str(''))]),   # absent, present, present with an empty payload
 ]
 E_NAMES = [None, 'a', 'b']
 
 
-def e_build(shape, annots, all_unit=False):
-    it, leaf_no = iter(annots), itertools.count()
+def e_build(shape, annots, all_unit=False, first=0):
+    it, leaf_no = iter(annots), itertools.count(first)
 
     def go(s):
         name = next(it)
@@ -567,6 +603,8 @@ def e_types(spec):
         yield e_build(shape, annots)
         if n >= 2 and annots[0] is None:
             yield e_build(shape, annots, all_unit=True)
+        if annots[0] is None:
+            yield e_build(shape, annots, first=3)      # leaf types rotated: the option leaf comes first
 
 
 def e_setup(t):
@@ -657,7 +695,7 @@ def check_call(t, e, a):
     return out, label, d
 
 
-def run_param_type(r, t):
+def run_param_type(r, t, calls):
     tkey = json.dumps(t, sort_keys=True)
     case = {'fam': 'E', 'type': t}
     try:
@@ -665,19 +703,155 @@ def run_param_type(r, t):
     except Exception as e:
         r.ev()
         r.viol('ParameterSection.match rejects a well-formed parameter type', case, f'type={t} {err(e)}')
-        return case
-    for e, a in e_calls(P, t):
+        return case, None
+    texts = []
+    for e, a in calls:
         case = {'fam': 'E', 'type': t, 'entrypoint': e, 'arg': a}
         r.ev()
         vs, label, d = check_call(t, e, a)
         r.out(label)
+        texts.append(repr(d) if label.startswith('call ') else None)
         for dsc, detail in vs:
             r.viol(dsc, case, detail)
         if d is not None:
             full = ref.wrap(ref.resolve(t, e) or '', a)
             if obj_profile(d)[0] or not leaf_annotated(t, full):
                 r.nt((tkey, e, json.dumps(a, sort_keys=True)))
-    return case
+    return case, (None if None in texts else texts)
+
+
+# ------------------------------------------------------------------------------------------------ process history
+def raises_text(e):
+    return f'raises {type(e).__name__}'
+
+
+def item_texts(fam, item):
+    """The plain conversions input -> Python object of one item (a type with its values / a parameter type with its calls)
+    on a fresh build of the type, as texts."""
+    t, inputs = item
+    out = []
+    try:
+        conv = e_setup(t)[1] if fam == 'E' else M(json.loads(json.dumps(t)))
+    except Exception as e:
+        return [raises_text(e)] * len(inputs)
+    for x in inputs:
+        try:
+            if fam == 'E':
+                out.append(repr(conv(x[0]).decode(x[1])))
+            else:
+                out.append(repr(conv.from_micheline_value(x).to_python_object(lazy_diff=None)))
+        except Exception as e:
+            out.append(raises_text(e))
+    return out
+
+
+def in_child(fn):
+    """fn() evaluated in a forked copy of this process (same history so far); None when no child can be had."""
+    import os
+    import pickle
+    try:
+        rd, wr = os.pipe()
+        pid = os.fork()
+    except OSError:
+        return None
+    if pid == 0:
+        code = 1
+        try:
+            import gc
+            gc.disable()           # short-lived copy: a collection would only touch (and so copy) every inherited page
+            os.close(rd)
+            data = pickle.dumps(fn())
+            with os.fdopen(wr, 'wb') as f:
+                f.write(data)
+            code = 0
+        except BaseException:
+            pass
+        finally:
+            os._exit(code)
+    os.close(wr)
+    with os.fdopen(rd, 'rb') as f:
+        data = f.read()
+    os.waitpid(pid, 0)
+    try:
+        return pickle.loads(data)
+    except Exception:
+        return None
+
+
+def reverse_texts(fam, items):
+    """Object texts of every item, computed LAST item first in a child process: the same process history up to the shard,
+    the opposite order inside it.  A conversion that is a function of the type and the value gives the same text."""
+    def work():
+        out = [None] * len(items)
+        for i in range(len(items) - 1, -1, -1):
+            out[i] = item_texts(fam, items[i])
+        return out
+    return in_child(work)
+
+
+def shard_items(spec):
+    spec = tuple(spec)
+    if spec[0] == 'E':
+        out = []
+        for t in e_types(spec):
+            try:
+                out.append((t, e_calls(e_setup(t)[0], t)))
+            except Exception:
+                out.append((t, []))
+        return 'E', out
+    return spec[0], list(s_types(spec) if spec[0] == 'S' else l_types(spec))
+
+
+def judge_history(r, spec, fam, i, item, fwd, rev, len_after):
+    """fwd = texts in shard order (after items 0..i-1), rev = texts from the reversed child (after items n-1..i+1)."""
+    if rev is None:
+        r.no_verdict += 1
+        r.out('history: no child process, order independence not judged')
+        return
+    r.extra['history_comparisons'] += len(fwd)
+    if fwd == rev:
+        r.out('history: same objects in both orders')
+        return
+    r.out('history: objects differ between orders')
+    for vi, (a, b) in enumerate(zip(fwd, rev)):
+        if a != b:
+            what = item[1][vi]
+            r.viol(D_HISTORY, {'fam': 'H', 'spec': list(spec), 'index': i, 'vi': vi, 'type': item[0], 'input': what},
+                   f'type={item[0]} input={what}: object {a} when converted after the {i} items before it in the shard, '
+                   f'{b} when converted after the {len_after} items behind it instead')
+
+
+def judge_drift(r, spec, fam, items, first):
+    """A-B-A: every item converted once more after the whole shard."""
+    for i, item in enumerate(items):
+        if first[i] is None:
+            continue
+        again = item_texts(fam, item)
+        r.extra['history_comparisons'] += len(again)
+        for vi, (a, b) in enumerate(zip(first[i], again)):
+            if a != b:
+                r.viol(D_DRIFT, {'fam': 'H', 'spec': list(spec), 'index': i, 'vi': vi, 'type': item[0], 'input': item[1][vi],
+                                 'again': True},
+                       f'type={item[0]} input={item[1][vi]}: object {a} first, {b} after the rest of the shard')
+    r.out('history: every item converted again after the shard')
+
+
+def replay_history(case):
+    fam, items = shard_items(case['spec'])
+    i, vi = case['index'], case['vi']
+    if case.get('again'):
+        first = [item_texts(fam, it) for it in items]
+        again = item_texts(fam, items[i])
+        return [] if first[i][vi] == again[vi] else [(D_DRIFT, f'type={items[i][0]}: {first[i][vi]} first, {again[vi]} again')]
+    rev = reverse_texts(fam, items)
+    if rev is None:
+        return []
+    fwd = None
+    for j in range(i + 1):
+        fwd = item_texts(fam, items[j])
+    if fwd[vi] != rev[i][vi]:
+        return [(D_HISTORY, f'type={items[i][0]} input={items[i][1][vi]}: object {fwd[vi]} in shard order, {rev[i][vi]} in the opposite order')]
+    return []
 
 
 # ------------------------------------------------------------------------------------------------ driver interface
@@ -689,23 +863,29 @@ def run_shard(spec, tier):
     r = Result()
     case = None
     spec = tuple(spec)
-    if spec[0] == 'E':
-        for i, t in enumerate(e_types(spec)):
-            case = run_param_type(r, t)
-            if i == 0:
-                r.sample(case)
-    else:
-        gen = s_types(spec) if spec[0] == 'S' else l_types(spec)
-        for i, (t, vals) in enumerate(gen):
-            case = run_bare_type(r, spec[0], t, vals)
-            if i == 0:
-                r.sample(case)
+    fam, items = shard_items(spec)
+    rev = reverse_texts(fam, items)
+    first = []
+    for i, item in enumerate(items):
+        if fam == 'E':
+            case, fwd = run_param_type(r, item[0], item[1])
+        else:
+            case, fwd = run_bare_type(r, fam, item[0], item[1])
+        if fwd is None:
+            fwd = item_texts(fam, item)
+        first.append(fwd)
+        judge_history(r, spec, fam, i, item, fwd, rev[i] if rev is not None else None, len(items) - 1 - i)
+        if i == 0:
+            r.sample(case)
+    judge_drift(r, spec, fam, items, first)
     if case is not None:
         r.sample(case)
     return r
 
 
 def replay(case):
+    if case.get('fam') == 'H':
+        return replay_history(case)
     t = case['type']
     if case.get('fam') == 'E':
         if 'entrypoint' not in case:
